@@ -226,6 +226,10 @@ module Z :
 
   val mul : z -> z -> z
 
+  val pow_pos : z -> positive -> z
+
+  val pow : z -> z -> z
+
   val compare : z -> z -> comparison
 
   val sgn : z -> z
@@ -392,6 +396,8 @@ val optimize : num -> num
 val optimize_pre_fix : num -> num
 
 val from_big_num : big -> big -> num
+
+val wrap_isize : z -> z
 
 val nnew : z -> z -> num
 
